@@ -19,11 +19,13 @@ PROPS_FILE = 'ScnVerif/Props/C09.lean'
 TRANSLATORS = [tr_kernels.translate]
 RULE = (
     '(arg) every public entry point in the call table (conversion kernels by parameter name, convert() on dense and '
-    'binned data, chopper, tof.chopper_cascade, peaks, absorption, io xye/cif, atoms/material) is called with every '
+    'binned data, chopper, tof.chopper_cascade, peaks, absorption, io xye/cif/sqw builder, atoms/material) is called with every '
     'argument in each unit/dtype configuration of its parameter (configurations whose unit and dtype equal the '
     'internal target come first, so copy=False conversions alias; float64 and float32; scalar and array shapes) and '
     'seeded mixed configurations; all arguments are deep-snapshotted (values, variances, units, dtypes, dims, masks, '
-    'coords, bin contents, nested dataclasses / dicts / model objects) before and after. '
+    'coords, bin contents, nested dataclasses / dicts / model objects; for container arguments — chopper lists, model / '
+    'name lists, lists of FitResult, CIF content / author / reducer lists, SQW experiment lists — also identity and order '
+    'of the elements) before and after. '
     '(hist) every sequence of up to 3 factory / lookup / combinator calls per factory family, each followed by every '
     'applicable mutation of the returned object, then a fresh lookup compared with the pristine value obtained in a '
     'fresh subprocess. (ir) the analysis of every translated function is re-run through the Lean driver for every '
@@ -257,8 +259,20 @@ def kernel_functions():
     return out
 
 
+def ident(obj, depth=0):
+    """identity and order of the elements of container arguments (lists, tuples, dicts, sets), recursively"""
+    if depth > 4:
+        return None
+    if isinstance(obj, list | tuple):
+        return (type(obj).__name__, id(obj) if isinstance(obj, list) else None, tuple((id(e), ident(e, depth + 1)) for e in obj))
+    if isinstance(obj, dict):
+        return ('dict', id(obj), tuple((repr(k), id(v), ident(v, depth + 1)) for k, v in obj.items()))
+    return None
+
+
 def call_and_compare(ctx, label, cfg, fn, args, kwargs, extra=None):
     """snapshot all arguments, call, compare; returns True if an argument changed"""
+    ids_before = ident((args, kwargs))
     before = snap((args, kwargs))
     err = None
     try:
@@ -266,7 +280,12 @@ def call_and_compare(ctx, label, cfg, fn, args, kwargs, extra=None):
     except Exception as e:  # noqa: BLE001
         err = type(e).__name__
     after = snap((args, kwargs))
+    ids_after = ident((args, kwargs))
     ctx.case(('arg', label, cfg), True, sample={'op': 'call', 'function': label, 'config': cfg, 'raised': err})
+    if ids_before != ids_after and before == after:
+        report(ctx, f'C09:arg-mutated:{label}', f'{label} changed the identity or order of the elements of a container argument in configuration {cfg}',
+               {'kind': 'arg', 'function': label, 'config': cfg, 'diff': 'container identity/order', **(extra or {})})
+        return True
     ctx.count('call:' + label.split('.')[0] + (':raised' if err else ''))
     if before != after:
         d = first_diff(before, after)
@@ -409,6 +428,14 @@ def chopper_calls(ctx, deep):
                           time_close=sc.array(dims=['cutout'], values=[4.0, 12.0], unit='ms').to(unit='s'))
         fs = mkframes()
         yield 'FrameSequence.chop', cfg, (lambda f, c: f.chop(c)), (fs, [chop]), {}, {}
+        def mkchop(dist_m, shift_ms=0.0):
+            return cc.Chopper(distance=sc.scalar(dist_m, unit='m').to(unit=dunit),
+                              time_open=sc.array(dims=['cutout'], values=[1.0 + shift_ms, 9.0 + shift_ms], unit='ms').to(unit='s'),
+                              time_close=sc.array(dims=['cutout'], values=[4.0 + shift_ms, 12.0 + shift_ms], unit='ms').to(unit='s'))
+        for order in ([9.0, 6.0, 7.5], [6.0, 7.5, 9.0], [7.5, 6.0], [9.0, 7.5, 6.0]):
+            lst = [mkchop(d, 0.2 * i) for i, d in enumerate(order)]
+            yield 'FrameSequence.chop', cfg + f',choppers at {order}', (lambda f, c: f.chop(c)), (mkframes(), lst), {}, {}
+            yield 'FrameSequence.chop', cfg + f',choppers at {order} (tuple)', (lambda f, c: f.chop(c)), (mkframes(), tuple(lst)), {}, {}
         fs2 = mkframes().chop([chop])
         frame = fs2[-1]
         yield 'Frame.propagate_to', cfg, (lambda f, x: f.propagate_to(x)), (frame, sc.scalar(12.0, unit='m').to(unit=dunit)), {}, {}
@@ -450,6 +477,15 @@ def peaks_calls(ctx, deep):
                 results = fit_peaks(da, peak_estimates=est, windows=win, background='linear', peak='gaussian')
                 plain = sc.DataArray(sc.values(da.data), coords={'x': da.coords['x']})
                 yield 'remove_peaks', cfg, remove_peaks, (plain, results), {}, {}
+                yield 'remove_peaks', cfg + ',reversed list', remove_peaks, (plain.copy(), results[::-1]), {}, {}
+                yield 'remove_peaks', cfg + ',tuple', remove_peaks, (plain.copy(), tuple(results)), {}, {}
+                models_p = [M.LorentzianModel(prefix='l_'), M.GaussianModel(prefix='g_')]
+                models_b = [M.PolynomialModel(degree=2, prefix='q_'), M.PolynomialModel(degree=1, prefix='l_')]
+                yield 'fit_peaks', cfg + ',models=lists of instances', fit_peaks, (mkda(),), {
+                    'peak_estimates': est, 'windows': win, 'background': models_b, 'peak': models_p}, {}
+                w2 = sc.array(dims=['x', 'range'], values=[[3.0, 5.0], [7.0, 9.0]], unit='angstrom').to(unit=xunit)
+                yield 'fit_peaks', cfg + ',explicit windows,name lists', fit_peaks, (mkda(),), {
+                    'peak_estimates': est, 'windows': w2, 'background': ['quadratic', 'linear'], 'peak': ['pseudo_voigt', 'gaussian']}, {}
             # model evaluation / guesses: parameters in the units of the data
             x = mkda().coords['x']
             for model, params in [
@@ -522,6 +558,64 @@ def io_calls(ctx, deep):
             yield 'Block.write', cfg, (lambda b: b.write(io.StringIO())), (blk,), {}, {}
             yield 'Block.add', cfg, (lambda b, l: cif.Block('c', [l]).write(io.StringIO())), (blk, loop), {}, {}
             yield 'save_cif', cfg, (lambda b: cif.save_cif(io.StringIO(), b)), (blk,), {}, {}
+            content = [cif.Chunk({'_z': 1}), loop, chunk, {'_m': 'mapping'}]
+            yield 'Block(content list)', cfg, (lambda lst: cif.Block('c', lst).write(io.StringIO())), (content,), {}, {}
+            yield 'save_cif(list of blocks)', cfg, (lambda lst: cif.save_cif(io.StringIO(), lst)), ([cif.Block('b2', [chunk]), cif.Block('a1', [loop])],), {}, {}
+            pairs = [('_b', 2), ('_a', 1)]
+            yield 'Chunk(pairs list)', cfg, (lambda lst: cif.Chunk(lst).write(io.StringIO())), (pairs,), {}, {}
+            cols = {'_y': mkda().data, '_x': mkda().coords['x']}
+            yield 'Loop(columns dict)', cfg, (lambda d: cif.Loop(d).write(io.StringIO())), (cols,), {}, {}
+            reducers = ['zeta-reducer', 'alpha-reducer']
+            yield 'CIF.with_reducers', cfg, (lambda c_, lst: c_.with_reducers(*lst).save(io.StringIO())), (cif.CIF('blk'), reducers), {}, {}
+            try:
+                from scippneutron.metadata import Person
+
+                authors = [Person(name='Zed, Z.', corresponding=False), Person(name='Abe, A.', corresponding=True, email='a@b.c')]
+                yield 'CIF.with_authors', cfg, (lambda c_, lst: c_.with_authors(*lst).save(io.StringIO())), (cif.CIF('blk'), authors), {}, {}
+            except ImportError:
+                pass
+    yield from sqw_calls(ctx, deep)
+
+
+def sqw_calls(ctx, deep):
+    import dataclasses as dc
+    from io import BytesIO
+
+    import numpy as np
+    import scipp as sc
+
+    try:
+        from scippneutron.io.sqw import EnergyMode, Sqw, SqwIXExperiment
+    except ImportError as e:
+        ctx.note(f'sqw builder not importable: {e}')
+        return
+    tmpl = SqwIXExperiment(
+        run_id=-1, efix=sc.scalar(1.2, unit='meV'), emode=EnergyMode.direct,
+        en=sc.array(dims=['energy_transfer'], values=[3.0], unit='meV'), psi=sc.scalar(1.2, unit='rad'),
+        u=sc.vector([0.0, 1.0, 0.0]), v=sc.vector([1.0, 1.0, 0.0]), omega=sc.scalar(1.4, unit='rad'),
+        dpsi=sc.scalar(0.0, unit='rad'), gl=sc.scalar(3, unit='rad'), gs=sc.scalar(-0.5, unit='rad'), filename='', filepath='/data')
+    n = 7
+    for dtype in ('float32', 'float64'):
+        experiments = [dc.replace(tmpl, run_id=1, filename='f2'), dc.replace(tmpl, run_id=0, filename='f1')]
+        pix = sc.DataArray(
+            sc.array(dims=['obs'], values=np.arange(n, dtype=dtype), variances=np.ones(n, dtype=dtype), unit='count'),
+            coords={'idet': sc.arange('obs', 0, n, unit=None).astype(int) // sc.index(3),
+                    'irun': sc.arange('obs', 0, n, unit=None).astype(int) // sc.index(4),
+                    'ien': sc.arange('obs', 0, n, unit=None).astype(int) // sc.index(10),
+                    'u1': sc.arange('obs', 0.0, n + 0.0, unit='1/angstrom').astype(dtype), 'u2': sc.arange('obs', 1.0, n + 1.0, unit='1/angstrom').astype(dtype),
+                    'u3': sc.arange('obs', 2.0, n + 2.0, unit='1/angstrom').astype(dtype), 'u4': (sc.arange('obs', n, unit='meV') * 2.0).astype(dtype)})
+
+        def build(p, ex, chunk):
+            b = Sqw.build(BytesIO()).add_pixel_data(p, experiments=ex)
+            b.create(chunk_size=chunk)
+
+        for chunk in (8192, 2):
+            yield 'SqwBuilder.add_pixel_data+create', f'dtype={dtype},chunk={chunk}', build, (pix, experiments, chunk), {}, {}
+
+
+def _unused_io_tail():
+    if False:
+        yield None
 
 
 def atoms_calls(ctx, deep):
